@@ -81,6 +81,7 @@ class G:
         self.named_ids = []
         self.bodies = []     # (cpp, core id)
         self.struct_extra = {}
+        self.prefixes = ""
 
     def add(self, kind, arg="", kids=(), vid=-1, a0=0, a1=0, a2=0, ids=()):
         self.nodes.append((kind, arg, tuple(kids), vid, a0, a1, a2, tuple(ids)))
@@ -421,6 +422,8 @@ class G:
                 return (self.names[i], self.named_ids[i])
             if self.profile == "buf" and r.random() < 0.12:
                 return self.atom("require")
+            if self.profile == "buf" and r.random() < 0.25:
+                return self.atom(r.choice(["rep_one_min_max", "unsigned_rule", "maximum_rule", "raw_string", "eol", "string", "istring", "bytes", "u8any", "u8one"]))
             if self.profile == "contrib" and r.random() < 0.7:
                 return self.atom(r.choice(["unsigned_rule", "signed_rule", "maximum_rule", "rep_one_min_max", "raw_string", "raw_string", "unsigned_rule"]))
             if self.profile in ("buf", "conv") and r.random() < 0.04:
@@ -627,11 +630,14 @@ CTX_TEMPLATES = [
 ]
 CTX_GADGETS = ["consume_then_fail", "deep_consume_then_fail", "empty_success", "empty_failure", "consume", "nullable", "raising", "star_ab"]
 CTX_MODES = ["sor_first", "opt", "star", "seq_tail", "must", "top"]
+CTX_QUICK_GADGETS = ["consume_then_fail", "deep_consume_then_fail", "nullable", "raising"]
 
 
-def ctx_grammar(tu, gname, rnd, tmpl, arity, nums, prop, slot, gadget, mode):
+def ctx_grammar(tu, gname, rnd, tmpl, arity, nums, prop, slot, gadget, mode=None):
+    """one grammar per (template, slot, gadget): a leading selector byte '1'..'6' picks the context that forces the
+    inherited rewind mode of C (the template instance under test)"""
     g = G(tu, gname, rnd, "ctx", prop)
-    g.cell = "%s/%d:%d:%s:%s" % (tmpl, arity, slot, mode, gadget)
+    g.cell = "%s/%d:%d:%s" % (tmpl, arity, slot, gadget)
     xs = []
     for i in range(arity):
         if i == slot:
@@ -639,90 +645,33 @@ def ctx_grammar(tu, gname, rnd, tmpl, arity, nums, prop, slot, gadget, mode):
         else:
             xs.append(g.atom("one", "bca"[(i + (1 if i > slot else 0)) % 3]))
     c = g.op(tmpl, xs, nums)
-    tail = g.op("seq", [g.atom("one", "c"), g.atom("eof")])
-    if mode == "sor_first":
-        # C is a non-last alternative: entered with rewinding required; the second alternative only
-        # matches a two-byte input from the original position
-        e = g.op("sor", [c, g.op("seq", [g.atom("any"), g.atom("any"), g.atom("eof")])])
-    elif mode == "opt":
-        e = g.op("seq", [g.op("opt", [c]), tail])
-    elif mode == "star":
-        e = g.op("seq", [g.op("star", [c]), tail])
-    elif mode == "seq_tail":
-        e = g.op("seq", [c, tail])
-    elif mode == "must":
-        g.features |= GF_EXC
-        e = g.op("seq", [g.op("must", [c]), g.op("star", [g.atom("any")])])
-    else:
-        e = c
-    g.single(e[0], e[1])
+    tail = lambda: g.op("seq", [g.atom("one", "c"), g.atom("eof")])
+    modes = []
+    for m in CTX_MODES:
+        if m == "sor_first":
+            # C is a non-last alternative: entered with rewinding required; the second alternative only matches a
+            # two-byte rest from the original position
+            e = g.op("sor", [c, g.op("seq", [g.atom("any"), g.atom("any"), g.atom("eof")])])
+        elif m == "opt":
+            e = g.op("seq", [g.op("opt", [c]), tail()])
+        elif m == "star":
+            e = g.op("seq", [g.op("star", [c]), tail()])
+        elif m == "seq_tail":
+            e = g.op("seq", [c, tail()])
+        elif m == "must":
+            g.features |= GF_EXC
+            e = g.op("seq", [g.op("must", [c]), g.op("star", [g.atom("any")])])
+        else:
+            e = c
+        modes.append(e)
+    alts = []
+    for i, e in enumerate(modes):
+        sel = chr(ord("1") + i)
+        alts.append(g.op("seq", [g.vis("one< '%s' >" % sel, g.add("ONE", sel)), e]))
+    top = g.op("sor", alts)
+    g.prefixes = "".join(chr(ord("1") + i) for i in range(len(modes)))
+    g.single(top[0], top[1])
     return g
-
-
-# ---------------------------------------------------------------------- cycles (C11)
-CYC_EXTRA = [("state", 1, (1,), "C11"), ("action_b", 1, (), "C11"), ("control_b", 1, (), "C11"), ("if_apply", 1, (0,), "C11"),
-             ("try_catch_std_raise_nested", 1, (3,), "C11"), ("try_catch_type_raise_nested", 1, (1,), "C11")]
-CYC_FILLERS = ["nullable", "predicate", "failing", "consuming"]
-CYC_VARIANTS = ["direct", "indirect", "guarded", "loopbody", "second_alt"]
-NO_ANALYZE_TRAITS = ("strict", "star_strict")
-
-
-def cyc_filler(g, kind, i):
-    if kind == "nullable":
-        return g.op("opt", [g.atom("one", "a")])
-    if kind == "predicate":
-        return g.op("at", [g.atom("one", "ab"[i % 2])])
-    if kind == "failing":
-        return g.atom("failure")
-    return g.atom("one", "a")
-
-
-def cyc_grammar(tu, gname, rnd, tmpl, arity, nums, slot, filler, variant):
-    g = G(tu, gname, rnd, "cyc", "C11")
-    g.cell = "%s/%d:%d:%s:%s" % (tmpl, arity, slot, filler, variant)
-    g.alpha.update("ab")
-    g.names = ["%s::B" % gname, "%s::A" % gname]
-    g.named_ids = [g.add("NAMED", vid=tu.vid(n)) for n in g.names]
-    A = (g.names[1], g.named_ids[1])
-    B = (g.names[0], g.named_ids[0])
-    if variant == "direct":
-        rec = A
-    elif variant == "indirect":
-        rec = B
-    elif variant == "guarded":
-        rec = g.op("seq", [g.atom("one", "a"), A])
-    elif variant == "second_alt":
-        rec = g.op("sor", [cyc_filler(g, filler, 1), A])
-    else:
-        rec = g.op("opt", [g.atom("one", "b")]) if rnd.random() < 0.5 else g.op("at", [g.atom("any")])
-    xs = []
-    for i in range(arity):
-        xs.append(rec if i == slot else cyc_filler(g, filler, i))
-    c = g.op(tmpl, xs, nums)
-    # B (used by the indirect variant; harmless otherwise)
-    bb = g.op("seq", [g.op("opt", [g.atom("one", "b")]), A])
-    g.finish_named(0, bb[0], bb[1])
-    # A : sor< C, one<'b'> > would add an exit; keep A = C so that the cycle is the only way
-    if rnd.random() < 0.5:
-        c = g.op("sor", [c, g.atom("one", "b")])
-    g.finish_named(1, c[0], c[1])
-    g.close()
-    return g
-
-
-def cyc_cells():
-    cells = []
-    for (tmpl, arity, nums, prop) in list(CTX_TEMPLATES) + CYC_EXTRA:
-        if tmpl in NO_ANALYZE_TRAITS:
-            continue
-        for slot in range(arity):
-            for filler in CYC_FILLERS:
-                for variant in CYC_VARIANTS:
-                    # analyze_traits of if_apply< R, ... > and until< R > name R::rule_t: a direct self-reference there is an incomplete type (does not compile)
-                    if variant == "direct" and slot == 0 and (tmpl == "if_apply" or (tmpl == "until" and arity == 1)):
-                        continue
-                    cells.append((tmpl, arity, nums, slot, filler, variant))
-    return cells
 
 
 def ctx_cells():
@@ -730,8 +679,7 @@ def ctx_cells():
     for (tmpl, arity, nums, prop) in CTX_TEMPLATES:
         for slot in range(arity):
             for gadget in CTX_GADGETS:
-                for mode in CTX_MODES:
-                    cells.append((tmpl, arity, nums, prop, slot, gadget, mode))
+                cells.append((tmpl, arity, nums, prop, slot, gadget))
     return cells
 
 
@@ -845,8 +793,8 @@ def emit_tu(tu, seed, variants=(0, 1, 2, 3, 4, 5)):
     out.append("static const mon::grammar GS[] = {")
     for g in tu.grammars:
         salt = rnd.randrange(1 << 30)
-        out.append('  { "%s", "%s", "%s", "%s", "%s", %s::nodes, sizeof( %s::nodes ) / sizeof( %s::nodes[ 0 ] ), %d, "%s", %d, MON_KINDS, MON_KINDS_B, MON_SELS, %du, %du, &mon::run_entry< %s >, MON_ANALYZE_ENTRY( %s ) },'
-                   % (g.gname, cstr(g.text()), g.profile, cstr(g.cell), g.prop, g.gname, g.gname, g.gname, g.top, cstr(g.alphabet), len(g.alphabet), salt, g.features, g.names[-1], g.names[-1]))
+        out.append('  { "%s", "%s", "%s", "%s", "%s", %s::nodes, sizeof( %s::nodes ) / sizeof( %s::nodes[ 0 ] ), %d, "%s", %d, "%s", MON_KINDS, MON_KINDS_B, MON_SELS, %du, %du, &mon::run_entry< %s >, MON_ANALYZE_ENTRY( %s ) },'
+                   % (g.gname, cstr(g.text()), g.profile, cstr(g.cell), g.prop, g.gname, g.gname, g.gname, g.top, cstr(g.alphabet), len(g.alphabet), cstr(g.prefixes), salt, g.features, g.names[-1], g.names[-1]))
     out.append("};")
     out.append("int main( int argc, char** argv ) {")
     out.append("  mon::set_registry( REGS, sizeof( REGS ) / sizeof( REGS[ 0 ] ), CUSTOM );")
@@ -861,15 +809,16 @@ def make_tus(profile, seed, count, per_tu=10, prop=None):
     tus = []
     if profile == "ctx":
         cells = ctx_cells()
+        if count:
+            # quick tier: every (template, slot) with the gadgets that matter most for rewind-mode bugs
+            cells = [c for c in cells if c[5] in CTX_QUICK_GADGETS]
         rnd.shuffle(cells)
-        if count and count < len(cells):
-            cells = cells[:count]
         gi = 0
         for i in range(0, len(cells), per_tu):
             tu = TU()
             for cellspec in cells[i:i + per_tu]:
-                tmpl, arity, nums, cprop, slot, gadget, mode = cellspec
-                g = ctx_grammar(tu, "g%d" % gi, rnd, tmpl, arity, nums, cprop, slot, gadget, mode)
+                tmpl, arity, nums, cprop, slot, gadget = cellspec
+                g = ctx_grammar(tu, "g%d" % gi, rnd, tmpl, arity, nums, cprop, slot, gadget)
                 tu.grammars.append(g)
                 gi += 1
             tus.append(("ctx-%d-%d" % (seed, i // per_tu), emit_tu(tu, seed * 977 + i), len(tu.grammars)))
